@@ -6,4 +6,4 @@ Require Extraction.
 Require Import ExtrOcamlBasic ExtrOcamlString.
 Extraction Language OCaml.
 Extraction "../ocaml/c08/model.ml" decode encode_frame enc_body enc_header parse_custom
-  alloc_bound depth_bound is_rejected largest_in_proportion total_in_proportion read_frame read_frame_chunked reader_after cut_chunks tuple_target tuple_rows_first_error typed_rows_first_error tablet_payload payload_lookup tablets_key decode_pair.
+  alloc_bound depth_bound stack_bound stack_in_bound is_rejected largest_in_proportion total_in_proportion read_frame read_frame_chunked reader_after cut_chunks tuple_target tuple_rows_first_error typed_rows_first_error tablet_payload payload_lookup tablets_key decode_pair.
